@@ -34,20 +34,24 @@ open Multi
 
 def initCell (a : Int) : Int := (a * 7 + 3) % 11
 
+/-- the memory is kept as a table of the cells that differ from (or were re-evaluated over) the initial contents -/
 structure SSt where
   base : St
-  mem : Mem Int
+  tbl : Std.HashMap Int Int
   segs : List (Int × Int)
   deriving Inhabited
 
-def SSt.init (args : List String) : SSt := { base := St.init args, mem := initCell, segs := [] }
+def SSt.init (args : List String) : SSt := { base := St.init args, tbl := Std.HashMap.emptyWithCapacity 256, segs := [] }
+
+@[noinline] def memOf (tbl : Std.HashMap Int Int) : Mem Int := fun a => tbl.getD a (initCell a)
+
+def SSt.mem (st : SSt) : Mem Int := memOf st.tbl
 
 /-- flatten the chain of closures that a sequence of writes builds: evaluate the memory on the windows of the
-    program's roots and rebuild it as a table over the initial contents (pure representation change) -/
-def compact (m : Mem Int) (segs : List (Int × Int)) : Mem Int :=
-  let tbl : Std.HashMap Int Int := segs.foldl (fun t (lo, hi) =>
+    program's roots and rebuild the table (pure representation change) -/
+@[noinline] def compact (m : Mem Int) (segs : List (Int × Int)) : Std.HashMap Int Int :=
+  segs.foldl (fun t (lo, hi) =>
     (List.range (hi - lo).toNat).foldl (fun t (k : Nat) => let a := lo + Int.ofNat k; t.insert a (m a)) t) (Std.HashMap.emptyWithCapacity 256)
-  fun a => tbl.getD a (initCell a)
 
 def ltInt (x y : Int) : Bool := decide (x < y)
 
@@ -111,9 +115,8 @@ def assignCmd (st : SSt) (fd : Char) (rd : Nat) (fs : Char) (rs : Nat) : Option 
     | [] => none
     | _ :: _ => do
       let vals ← s.read m
-      if flat fd then
-        if Exts.eqv d.exts s.exts then (ElemRange.ofView d).assignVals vals m else none
-      else if Exts.eqv d.exts s.exts then (ElemRange.ofView d).assignVals vals m else none
+      -- the array's own extensions are those of a freshly constructed array (collapsed when it has no elements)
+      if Exts.eqv d.exts (Layout.ofExts s.exts).exts then (ElemRange.ofView d).assignVals vals m else none
   else if flat fd && flat fs then
     if isLong d != isLong s then d.arefAssignT s m else d.arefAssign s m
   else if fs == 'c' || isLong d != isLong s then d.assignT s m
@@ -128,7 +131,7 @@ def chunks (n : Nat) (l : List Int) : List (List Int) := if n == 0 then [] else 
 
 def okOr (st : SSt) (r : Option (Mem Int)) : SSt × Option String :=
   match r with
-  | some m' => ({ st with mem := compact m' st.segs }, some "ok")
+  | some m' => ({ st with tbl := compact m' st.segs }, some "ok")
   | none => (st, some "none")
 
 def sstep (st : SSt) (line : String) : SSt × Option String :=
@@ -137,7 +140,7 @@ def sstep (st : SSt) (line : String) : SSt × Option String :=
     let (b', out) := step st.base line
     ({ st with base := b' }, out)
   match ws with
-  | "prog" :: _ => let (b', out) := step st.base line; ({ base := b', mem := initCell, segs := [] }, out)
+  | "prog" :: _ => let (b', out) := step st.base line; ({ base := b', tbl := Std.HashMap.emptyWithCapacity 256, segs := [] }, out)
   | "root" :: reg :: _ =>
     let (st', out) := viaBase
     match reg.toNat? with
